@@ -5,6 +5,7 @@
  * stdin, one request per line:
  *   seed  <shared> <init> <threads> <seed> <spuriousWeight> <timeoutWeight>
  *   sched <shared> <init> <threads> <token>...            strict prefix, then FIRST policy
+ *   loose <shared> <init> <threads> <token>...            same, but tokens that are not enabled are skipped
  *   dfs   <shared> <init> <threads> <depth> <maxSpurious> <maxRuns> <independence>
  * init    `-` or `addr:width:value,...`      threads  `ops|ops|...` (threads 1,2,...)
  * ops     `w32:addr:expect:timeout` `w64:addr:expect:timeout` `n:addr:count` `s:addr:width:value`
@@ -206,7 +207,7 @@ int main(void) {
             sched_run_forked(scenario, NULL, &c, &o);
             print_outcome(&o);
             sched_outcome_free(&o);
-        } else if (!strcmp(w[0], "sched")) {
+        } else if (!strcmp(w[0], "sched") || !strcmp(w[0], "loose")) {
             sched_outcome o;
             char sbuf[8192];
             size_t len = 0;
@@ -214,7 +215,7 @@ int main(void) {
             sbuf[0] = 0;
             for (i = 4; i < n; i++) len += snprintf(sbuf + len, sizeof sbuf - len, "%s%s", len ? " " : "", w[i]);
             c.schedule = sbuf;
-            c.strict = 1;
+            c.strict = !strcmp(w[0], "sched");      /* loose: tokens that are not enabled are skipped */
             c.fallback = SCHED_FB_FIRST;
             sched_run_forked(scenario, NULL, &c, &o);
             print_outcome(&o);
